@@ -62,8 +62,41 @@ def _position_survives_def_fn(ctx, rep):
            '; '.join(sub.errors))
 
 
+def _resume_forms(ctx, rep):
+    """RESUME without an argument is recognised wherever the statement ends -- at a colon or ELSE as well as at the end
+    of the line (`IF c THEN RESUME ELSE ...`, `RESUME: REM`); RESUME NEXT by its keyword; anything else is a line number."""
+    pr = ctx.fn('pcbasic/basic/parser/statements.py:Parser._parse_resume')
+    fl = ctx.flow(pr)
+    ys = [y for y in own_nodes(pr) if isinstance(y, ast.Yield)]
+    forms = {}
+    for y in ys:
+        facts = [(f.text, f.pol) for f in fl.facts(y)]
+        forms[norm(y.value) if y.value is not None else 'None'] = facts
+    rep.ob('resume.forms', '_parse_resume: bare RESUME iff the next token ends the statement (tk.END_STATEMENT)',
+           forms.get('None') == [('c == tk.NEXT', False), ('c in tk.END_STATEMENT', True)], repr(forms.get('None')), ctx.where(pr))
+    rep.ob('resume.forms', '_parse_resume: RESUME NEXT iff the next token is NEXT', forms.get('ins.read(1)') == [('c == tk.NEXT', True)], repr(forms.get('ins.read(1)')), ctx.where(pr))
+    rep.ob('resume.forms', '_parse_resume: otherwise a line number', forms.get('self._parse_jumpnum(ins)') == [('c == tk.NEXT', False), ('c in tk.END_STATEMENT', False)],
+           repr(forms.get('self._parse_jumpnum(ins)')), ctx.where(pr))
+    # nowhere in the statement parser is "no more arguments" decided by the end of the LINE
+    n = 0
+    bad = []
+    for fn in ctx.idx.functions('pcbasic/basic/parser/statements.py'):
+        for c in own_nodes(fn):
+            if isinstance(c, ast.Compare) and isinstance(c.ops[0], (ast.In, ast.NotIn)):
+                rhs = norm(c.comparators[0])
+                if 'END_STATEMENT' in rhs:
+                    n += 1
+                if 'END_LINE' in rhs:
+                    bad.append((fn, c))
+    for fn, c in bad:
+        rep.ob('resume.statement-end-not-line-end', '%s: %s' % (fn.name, short(c, 50)), False,
+               'an optional argument is taken to be absent only at the end of the line: the same statement followed by `:` or ELSE is a Syntax error', ctx.where(c))
+    rep.floor('resume.statement-end-not-line-end', n, 6, 'end-of-statement tests in the statement parser')
+
+
 def check(ctx, rep):
     _position_survives_def_fn(ctx, rep)
+    _resume_forms(ctx, rep)
     parse = ctx.fn(INTERP + ':Interpreter.parse')
     tries = [n for n in own_nodes(parse) if isinstance(n, ast.Try)]
     ok = len(tries) == 1 and len(tries[0].handlers) == 1 and norm(tries[0].handlers[0].type) == 'error.BASICError' \
@@ -197,6 +230,8 @@ def variants(ctx):
         return True
 
     return [
+        Va('bare-resume-only-at-line-end', 'break', 'pcbasic/basic/parser/statements.py',
+           lambda tree: mu.replace_expr(mu.find_def(tree, 'Parser._parse_resume'), mu.text_is('c in tk.END_STATEMENT'), 'c in tk.END_LINE'), expect='resume.'),
         Va('resume-point-after-jump', 'break', INTERP,
            in_fn('trap_error', lambda fn: swap(fn, 'self.error_resume = (self.current_statement, self.run_mode)', 'self.jump(self.on_error)')),
            expect='trap.resume-point'),
